@@ -14,4 +14,5 @@ func checkC20(c *Ctx, r *Report) {
 	r.Assume("address escape through interface method calls into non-repository code is not followed")
 	ruleR2(c, r, map[string]bool{"mp4.SetBoxDecoder": true, "mp4.RemoveBoxDecoder": true})
 	ruleNoReaderAliasing(c, r)
+	requireFixture(r, "R4", "readBodyAliasing", func(fc *Ctx, s *Report) { ruleNoReaderAliasing(fc, s) })
 }
